@@ -12,4 +12,5 @@ Extraction "model.ml"
   w_put_node w_add_child w_set_value w_set_reboot w_set_sleeping mk_node
   show_step show_world show_dec show_msg
   utf8_encode utf8_decode py_int rstrip split splitn join str_of_Z
-  parse_ver vlt_full.
+  parse_ver vlt_full
+  frun quiesce finit.
